@@ -381,6 +381,29 @@ def run(ctx):
     ctx.rule("R-C03-6", "decision table of the adjacency-cache update (path-sensitive predicate abstraction): push iff the pair is new; replace iff (multi ? new<old : KeepLast)")
     decision_table(ctx, prog, flows, effects, add_edge, helper, hcalls, repl)
 
+    # ------------------------------------------------------------------ R-C03-7
+    ctx.rule("R-C03-7", "the shortest-path and centrality algorithms traverse the caller's graph or its reverse(), never a derived graph with other weights or edges (to_single_edges sums parallel weights, set_all_edge_weights replaces them, get_subgraph drops edges)")
+    n7 = 0
+    for p_ in sorted(prog.bodies):
+        b_ = prog.bodies[p_]
+        root_ = b_
+        while root_.kind == "closure":
+            root_ = prog.bodies[root_.item["parent"]]
+        if not (root_.short.startswith("algorithms::shortest_path") or root_.short.startswith("algorithms::centrality")):
+            continue
+        for t_ in b_.calls():
+            tp_ = t_.callee.target_path(prog) if t_.callee else None
+            if not tp_:
+                continue
+            nm_ = short(tp_)
+            if not (nm_.startswith("graph::convert::") or nm_.startswith("graph::subgraph::")):
+                continue
+            n7 += 1
+            last_ = nm_.split("::")[-1]
+            ctx.require(last_ == "reverse", "R-C03-7", "derived|%s|%s" % (b_.short, last_), "%s traverses reverse() of the caller's graph" % b_.short.split("::")[-1],
+                        "%s runs on %s(..) of the caller's graph: the weights (or edges) it traverses are not those stored in the graph it was given -- on a multigraph to_single_edges makes the pair weight the SUM of the parallel edges, not their minimum" % (b_.short, last_), loc_str(t_.span))
+    ctx.floor("R-C03-7", "derived_graph_calls", n7, 1)
+
     # ------------------------------------------------------------------ R-C03-5
     ctx.rule("R-C03-5", "on the multi-edge path the cached weight is replaced only by a smaller one")
     found = False
